@@ -162,6 +162,30 @@ def oracle(ctx, o, first_only=False):
                         chk(name + ":last-byte-matters", st2 == "ok" and v is False, inp, str(v)[:60], "a hash without a limit depends on the last byte of a maximum-size password")
         if fails and first_only:
             return fails
+    # ---- 2b. a hash without a limit depends on EVERY byte, at every length — block multiples of the underlying primitive included (8-byte
+    #      DES segments, 64/128-byte digest blocks): no extension, prefix or last-byte change of the password verifies
+    lens = (1, 7, 8, 9, 16, 24, 63, 64, 65, 128) if not ctx.thorough else tuple(range(1, 34)) + (40, 48, 55, 56, 63, 64, 65, 72, 73, 96, 127, 128, 129, 255, 256, 257)
+    for name in vc.all_names():
+        h = vc.handler(name)
+        if getattr(getattr(h, "wrapped", h), "truncate_size", None) is not None or name in vc.DISABLED or name in EXPENSIVE or name in ("sun_md5_crypt", "scrypt"):
+            continue
+        hh = vc.using(h, vc.cheap_settings(h, rng))
+        ck = vc.ctx_kwds(h)
+        for ln in lens:
+            pw = "".join(rng.choice("abcdefghijklmnopqrstuvwxyz") for _ in range(ln))
+            inp = {"op": "every-byte-matters", "hasher": name, "length": ln, "secret": pw}
+            st, hs = vc.safe_call(lambda: hh.hash(pw, **ck))
+            if st == "err":
+                chk(name + ":hash", False, inp, errname(hs), "a hash")
+                continue
+            others = {"extension": pw + "x", "long-extension": pw + "y" * 9, "last-byte": pw[:-1] + ("z" if pw[-1] != "z" else "y"), "prefix": pw[:-1], "first-byte": ("0" + pw[1:])}
+            obs = {"same": vc.safe_call(lambda: hh.verify(pw, hs, **ck))[1]}
+            for k, alt in others.items():
+                obs[k] = vc.safe_call(lambda: hh.verify(alt, hs, **ck))[1]
+            ok = obs["same"] is True and all(obs[k] is False for k in others)
+            chk(name + ":every-byte-matters", ok, inp, {k: (v if isinstance(v, bool) else errname(v)) for k, v in obs.items()}, "only the password itself verifies")
+        if fails and first_only:
+            return fails
     # ---- 3. NUL at every position
     for name in sorted(vc.NUL_REFUSING | vc.NUL_AS_DATA):
         h = vc.handler(name)
